@@ -187,6 +187,32 @@ func parseClause(text, where string) *Clause {
 	if p.peek().k == "id" && p.peekAt(1).k == "op" && p.peekAt(1).s == ":" {
 		c.Label = p.next().s
 		p.next()
+	} else if p.peek().k == "id" && p.peekAt(1).k == "op" && p.peekAt(1).s == "[" {
+		// Label [C09 C13]: the clause serves only these properties
+		save := p.p
+		lab := p.next().s
+		p.next()
+		var props []string
+		ok := true
+		for !p.isOp("]") {
+			t := p.next()
+			if t.k == "op" && t.s == "," {
+				continue
+			}
+			if t.k != "id" {
+				ok = false
+				break
+			}
+			props = append(props, t.s)
+		}
+		if ok && p.isOp("]") && p.peekAt(1).k == "op" && p.peekAt(1).s == ":" {
+			p.next()
+			p.next()
+			c.Label = lab
+			c.Props = props
+		} else {
+			p.p = save
+		}
 	}
 	c.E = p.parseExpr()
 	if p.peek().k != "eof" {
